@@ -763,6 +763,32 @@ def nat_join_filter(h):
 
 
 
+def nat_full_outer_untyped_columns(h):
+    """bounded: full-outer join into a target whose other columns are typed `any` (values of several kinds, or null throughout): every
+    emitted row -- the rows made for unmatched source keys included -- carries every field the joined schema declares"""
+    from dataflows import Flow, join
+    src = [{'id': 1, 'p': 8}, {'id': 2, 'p': 2}, {'id': 2, 'p': 5}, {'id': 4, 'p': 3}, {'id': 7, 'p': 1}]
+    tgt = [{'id': 1, 'city': 'london', 'note': 'capital', 'checked': None}, {'id': 2, 'city': 'paris', 'note': 75, 'checked': None},
+           {'id': 3, 'city': 'rome', 'note': None, 'checked': None}]
+    for api in ('results', 'results-unvalidated'):
+        got = h.run(lambda: Flow([dict(r) for r in src], [dict(r) for r in tgt],
+                                 join('res_1', ['id'], 'res_2', ['id'], {'p': {'aggregate': 'sum'}}, mode='full-outer')).results(
+            **({} if api == 'results' else {'on_error': None})))
+        if not h.check(got[0] == 'ok', P + 'join.py::join_aux.process_target', api, 'runs', got[:2]):
+            continue
+        res, dp, _ = got[1]
+        names = [f['name'] for f in dp.descriptor['resources'][0]['schema']['fields']]
+        sums = {1: 8, 2: 7, 4: 3, 7: 1}
+        want = [dict(r, p=sums.get(r['id'])) for r in tgt] + [dict(id=k, city=None, note=None, checked=None, p=sums[k]) for k in (4, 7)]
+        rows = res[0]
+        if api == 'results':
+            ok = names == ['id', 'city', 'note', 'checked', 'p'] and rows == want
+        else:
+            # unvalidated rows may omit nulls; what they carry must be right
+            ok = len(rows) == len(want) and all(all(r.get(k) == w[k] for k in w) for r, w in zip(rows, want))
+        h.check(ok, P + 'join.py::join_aux.process_target', api, want, rows)
+
+
 # ------------------------------------------------------------------------------------------------ field mapping helpers (bounded)
 
 FIELDS_SPEC = '''
@@ -1001,16 +1027,21 @@ def sym_field_helpers(vc):
         vc.bounded_label = None
 
 
+from contracts.common import lazy_sym, lazy_nat   # noqa: E402
+
 ITEMS = [
     Item('aggregators', sym_aggregators, [('differential', nat_join), ('fixed-groups', nat_aggregators_fixed)], P + 'join.py::AGGREGATORS',
          replay=replay_aggregators),
     Item('field-helpers', sym_field_helpers, [], P + 'join.py::fix_fields'),
     Item('KeyCalc', sym_keycalc, [], P + 'join.py::KeyCalc.__call__', replay=replay_keycalc),
     Item('indexer', sym_indexer, [], P + 'join.py::join_aux.indexer'),
-    Item('process_target', sym_process_target, [('no-fields', nat_join_filter)], P + 'join.py::join_aux.process_target'),
+    Item('process_target', sym_process_target, [('no-fields', nat_join_filter), ('full-outer-untyped-columns', nat_full_outer_untyped_columns)],
+         P + 'join.py::join_aux.process_target'),
     Item('new_resource_iterator', sym_new_resource_iterator, [], P + 'join.py::join_aux.new_resource_iterator'),
     Item('join.field-order', sym_join_field_order, [], P + 'join.py::join_aux.process_datapackage'),
     Item('join.func', sym_join_func, [], P + 'join.py::join_aux.func'),
     Item('join.process_datapackage', sym_join_process_datapackage, [], P + 'join.py::join_aux.process_datapackage'),
     Item('recorded-findings', None, [('bounded', KF.nat_findings_c11)], 'dataflows/processors/join.py::KeyCalc.__init__'),
+    # the caster that runs over the joined rows (results(), dumpers): every declared field is cast and materialised, null when absent
+    Item('schema_validator', lazy_sym('C14', 'sym_schema_validator'), [], 'dataflows/base/schema_validator.py::schema_validator'),
 ]
